@@ -533,7 +533,7 @@ def run_parallel(plugin, exe, cases, timeout):
     from concurrent.futures import ThreadPoolExecutor
     if not cases:
         return [], 0
-    nb = max(1, min(core.NCPU, len(cases) // 20 or 1))
+    nb = max(1, min(core.NCPU, len(cases) // getattr(plugin, 'CASES_PER_BATCH', 20) or 1))
     if getattr(plugin, "SERIAL", False):
         nb = 1
     size = (len(cases) + nb - 1) // nb
